@@ -501,6 +501,18 @@ int64_t cmb_process_wait_event(const uint64_t ev_handle)
     const int64_t ret = (int64_t)cmi_coroutine_yield(NULL);
 
     /* Possibly much later */
+    if (ret != CMB_PROCESS_SUCCESS) {
+        /*
+         * Woken by something else, e.g. a timer. If we are still registered
+         * as waiting, withdraw that both here and at the event.
+         */
+        if (cmi_process_remove_awaitable(me,
+                                         CMI_PROCESS_AWAITABLE_EVENT,
+                                         (void *)ev_handle)) {
+            (void)cmi_event_remove_waiter(ev_handle, me);
+        }
+    }
+
     return ret;
 }
 
